@@ -70,7 +70,7 @@ def instance_keeps_order(ctx):
 
 def run(ctx):
     # locals / parameters the rules below refer to by name (a rename makes the analysis 'broken', never a violation)
-    ctx.anchor(ctx.fn1('Oomd::Engine::Ruleset::runOnce'), 'cgroup', 'visited', 'maybeHasXattr', 'cgroupfd', 'context')
+    ctx.anchor(ctx.fn1('Oomd::Engine::Ruleset::runOnce'), 'cgroup', 'visited', 'context')
     ctx.anchor(ctx.fn1('Oomd::Engine::Ruleset::registerRunnableRulesetForCgroupPath'), 'args', 'action_group', 'detector_groups')
     P = ctx.prog
     ro = ctx.fn1("Oomd::Engine::Ruleset::runOnce")
@@ -110,7 +110,11 @@ def run(ctx):
             d = dict(val)
             filt = d.get("C:this->xattr_filter_.empty()")
             if filt is False:
-                if not has_fact(st.conds, True, "*maybeHasXattr") or not has_fact(st.conds, True, "maybeHasXattr"):
+                # the probe's result (the local that receives hasxattrAt) was read as 'present' and 'true'
+                probes_ = locals_receiving(ro, r"hasxattrAt\(")
+                has_ = any((n_, True) in st.conds or (n_ + ".has_value()", True) in st.conds for n_ in probes_)
+                val_ = any(("*" + n_, True) in st.conds or (n_ + ".value()", True) in st.conds for n_ in probes_)
+                if not (has_ and val_):
                     okx = False
             elif filt is None:
                 okx = False
@@ -165,7 +169,8 @@ def run(ctx):
                   "setRulesetCgroup receives the cgroup being visited", "setRulesetCgroup receives " + ro.text(ro.nodes[i]["args"][0]))
     for i in hx:
         a = [ro.text(x) for x in ro.nodes[i]["args"]]
-        ctx.check("cgroupfd" in a[0] and a[1] == "this->xattr_filter_", "xattr-probed-on-this-cgroup", "provenance", ro.loc(i),
+        fdn = locals_receiving(ro, r"DirFd::open\(")
+        ctx.check(any(re.search(r"\b%s\b" % re.escape(n_), a[0]) for n_ in fdn) and a[1] == "this->xattr_filter_", "xattr-probed-on-this-cgroup", "provenance", ro.loc(i),
                   "the attribute is probed on the cgroup's own directory fd", "probe is hasxattrAt(%s)" % ", ".join(a))
     # the filter test itself: presence of the attribute, whatever its value
     from .C03 import has_xattr_probe
